@@ -69,7 +69,7 @@ def sd_rdbi(r):
     v = r.service_data.values
     out = [len(v)]
     for k in sorted(v):
-        out += [k] + enc_bytes(v[k])
+        out += [k] + enc_bytes(bytes(v[k]) if isinstance(v[k], tuple) else v[k])     # a pack-string codec gives its bytes as a tuple of integers
     return out
 
 
@@ -195,7 +195,7 @@ def do_call(client, callid, a, b):
                 df.add(a[3 + 3 * i], a[4 + 3 * i], a[5 + 3 * i])
         else:
             for i in range(n):
-                df.add(memloc(a, 3 + 6 * i))
+                df.add(memloc(a, 3 + 6 * i, client if n == 1 else None))
         return client.dynamically_define_did(did, df), sd_dddi
     if callid == 21:
         if W:
@@ -212,7 +212,8 @@ def do_call(client, callid, a, b):
     if callid == 24:
         return client.test_data_identifier(list(a[1:1 + a[0]])), sd_none
     if callid == 25:
-        return client.write_data_by_identifier(a[0], b[0]), sd_wdbi
+        from harness.clientlib import did_value
+        return client.write_data_by_identifier(a[0], did_value(client, a[0], b[0])), sd_wdbi
     if callid == 26:
         values = [b[0]] if a[3] == 1 else None
         if a[4] == 0:
@@ -262,8 +263,18 @@ def do_call(client, callid, a, b):
         sev = oi(a, 3)
         if sev is not None and a[5] == 1:
             sev = Dtc.Severity.from_byte(sev & 0xFF)
+        status, dtc_class, dtc = oi(a, 1), oi(a, 6), oi(a, 8)
+        if getattr(client, '_verif_objects', False):
+            # the documented alternative forms of the arguments: Dtc.Status, Dtc.DtcClass and Dtc objects instead of integers (an
+            # integer that no object can carry stays an integer)
+            if status is not None and 0 <= status <= 0xFF:
+                status = Dtc.Status.from_byte(status)
+            if dtc_class is not None and 0 <= dtc_class <= 0x1F:
+                dtc_class = Dtc.DtcClass.from_byte(dtc_class)
+            if dtc is not None:
+                dtc = Dtc(dtc)
         if W and a[0] in wrappers.DTC:
-            vals = {'status': oi(a, 1), 'severity': sev, 'dtc_class': oi(a, 6), 'dtc': oi(a, 8), 'snap': oi(a, 10), 'ext': oi(a, 12),
+            vals = {'status': status, 'severity': sev, 'dtc_class': dtc_class, 'dtc': dtc, 'snap': oi(a, 10), 'ext': oi(a, 12),
                     'memsel': oi(a, 14), 'fgid': oi(a, 16), 'ext_size': oi(a, 18)}
             wname, wnames = wrappers.DTC[a[0]]
             wargs = wrappers.narrow(vals, wnames, wrappers.DTC_ALL)
@@ -271,7 +282,7 @@ def do_call(client, callid, a, b):
                 if 'ext_size' in wnames and vals['ext_size'] is None:
                     wargs = wargs[:-1]
                 return getattr(client, wname)(*wargs), sd_dtc
-        return client.read_dtc_information(a[0], status_mask=oi(a, 1), severity_mask=sev, dtc_class=oi(a, 6), dtc=oi(a, 8),
+        return client.read_dtc_information(a[0], status_mask=status, severity_mask=sev, dtc_class=dtc_class, dtc=dtc,
                                            snapshot_record_number=oi(a, 10), extended_data_record_number=oi(a, 12),
                                            memory_selection=oi(a, 14), functional_group_id=oi(a, 16), extended_data_size=oi(a, 18)), sd_dtc
     raise RuntimeError('unknown call id %d' % callid)
